@@ -411,6 +411,10 @@ PARTITIONER_CLASSES = {
 }
 
 
+def _holds(nm, lit, name):
+    return {"ends_with": name.endswith(lit), "starts_with": name.startswith(lit), "contains": lit in name, "eq": name == lit, "eq_ignore_ascii_case": name.lower() == lit.lower()}[nm]
+
+
 def r11(ctx, facts):
     r = ctx.rule("R11", "the partitioner class names the servers report are recognised: Murmur3Partitioner -> Murmur3, ScyllaDB's com.scylladb.dht.CDCPartitioner -> CDC", floor=2)
     from ..util import dj_of
@@ -429,7 +433,35 @@ def r11(ctx, facts):
             if lit is not None:
                 tests.append((c, nm, lit))
     if not tests:
-        raise AnchorLost("PartitionerName::from_str: no string test found")
+        # table form: a constant list of (class-name literal, PartitionerName::V) pairs searched with one string test
+        fam = facts.find(r"^scylla::routing::partitioner::PartitionerName::from_str(::|$)", include_promoted=True)
+        pairs, meths = [], set()
+        for fb in fam:
+            for bb in sorted(fb.live_blocks):
+                stmts = fb.stmts(bb)
+                for st in stmts:
+                    if st[0] == "A" and st[2][0] == "agg" and st[2][1][0] == "tuple" and len(st[2][2]) == 2:
+                        lit_op, var_op = st[2][2]
+                        lit = lit_op[3] if lit_op[0] == "k" and lit_op[1] == "str" else None
+                        var = None
+                        if var_op[0] in ("c", "m"):
+                            d = fb.single_def(var_op[1][0])
+                            if d and d[0] == "stmt" and d[3][0] == "agg" and d[3][1][0] == "adt" and d[3][1][1].endswith("PartitionerName"):
+                                var = d[3][1][2]
+                        if lit is not None and var is not None:
+                            pairs.append((lit, var))
+            for bb, c in fb.calls():
+                nm = (c.decl or c.name or "").split("::")[-1]
+                if bb in fb.live_blocks and nm in ("ends_with", "starts_with", "contains", "eq", "eq_ignore_ascii_case"):
+                    meths.add(nm)
+        if not pairs or len(meths) != 1:
+            raise AnchorLost("PartitionerName::from_str: neither a chain of string tests nor a (name, partitioner) table with one test found (%d pairs, tests %s)" % (len(pairs), sorted(meths)))
+        nm = next(iter(meths))
+        for cls, want in PARTITIONER_CLASSES.items():
+            got = {var for lit, var in pairs if _holds(nm, lit, cls)}
+            r.instance("recognised:" + cls.split(".")[-1], got == {want},
+                       "for the class name %r the table of from_str yields %s; it must yield %s (a CDC log table hashed with Murmur3 routes every request to a non-replica)" % (cls, sorted(got) or "None", want), b.span)
+        return
 
     def holds(nm, lit, name):
         return {"ends_with": name.endswith(lit), "starts_with": name.startswith(lit), "contains": lit in name, "eq": name == lit, "eq_ignore_ascii_case": name.lower() == lit.lower()}[nm]
@@ -502,9 +534,69 @@ def path_last_name(place):
     return e[2] if isinstance(e, list) and e and e[0] == "f" and len(e) > 2 else None
 
 
+def r12(ctx, facts):
+    """the value of the partition-key marker with index i is the i-th bound value, wherever the key markers stand among the
+    others. PartitionKey::new walks the bound values once with `nth`: it skips `index - consumed` values, `consumed` starting at
+    0 and becoming `index + 1` after each key marker. Any other arithmetic shifts every key component to a neighbouring value as
+    soon as a non-key marker precedes the first key marker (seed C03-j)."""
+    from ..util import field_slice
+    r = ctx.rule("R12", "PartitionKey::new reads the value of key marker i at position i: `nth(index - consumed)`, consumed = 0, then index + 1", floor=1)
+    b = facts.one(r"^scylla::statement::prepared::PartitionKey::<'ps>::new$")
+    nths = [c for bb, c in b.calls() if bb in b.live_blocks and (c.decl or c.name or "").split("::")[-1] == "nth" and len(c.args) == 2]
+    if not nths:
+        r.note("PartitionKey::new does not walk the values with `nth` any more: the positional rule does not apply to this form")
+        r.instance("positional-walk", True, "no nth()", b.span, nontrivial=False)
+        return
+    PLUMBING = ("next", "into_iter", "copied", "cloned", "iter", "deref", "clone", "from", "into", "try_from", "try_into")
+
+    def is_index(op):
+        if op[0] not in ("c", "m"):
+            return False
+        seen, calls, bins = field_slice(b, op)
+        return not bins and any(b.local_ty(l).endswith("PartitionKeyIndex") for l, _ in seen) and \
+            any(isinstance(e, list) and e[0] == "f" and e[2] == "index" for l, _ in seen for d in b.defs.get(l, []) if d[0] == "stmt" and d[3][0] == "use" and d[3][1][0] in ("c", "m") for e in d[3][1][1][1])
+    for k, c in enumerate(nths):
+        seen, calls, bins = field_slice(b, c.args[1])
+        odd = sorted({(x.decl or x.name or "?").split("::")[-1] for x in calls} - set(PLUMBING))
+        subs = [x for x in bins if x[1] in ("Sub", "SubWithOverflow")]
+        adds = [x for x in bins if x[1] in ("Add", "AddWithOverflow")]
+        rest = [x[1] for x in bins if x not in subs and x not in adds]
+        ok = not odd and not rest and len(subs) == 1 and len(adds) <= 1
+        detail = "the number of values skipped is computed with %s" % (odd or rest or [x[1] for x in bins])
+        off = None
+        if ok:
+            a0, a1 = subs[0][2], subs[0][3]
+            ok = is_index(a0) and a1[0] in ("c", "m")
+            detail = "the skip count must be `index - consumed`"
+            if ok:
+                d = b.single_def(a1[1][0])
+                off = d[3][1][1][0] if d and d[0] == "stmt" and d[3][0] == "use" and d[3][1][0] in ("c", "m") and not d[3][1][1][1] else a1[1][0]
+        r.instance("skip-is-index-minus-consumed#%d" % k, ok, detail, c.span)
+        if not ok:
+            continue
+        inits, steps, other = [], [], []
+        for d in b.defs.get(off, []):
+            if d[0] == "stmt" and d[3][0] == "use" and d[3][1][0] == "k":
+                inits.append(int(d[3][1][3]))
+            elif d[0] == "stmt" and d[3][0] == "use" and d[3][1][0] in ("c", "m"):
+                src = b.single_def(d[3][1][1][0])
+                if src and src[0] == "stmt" and src[3][0] in ("bin", "cbin") and src[3][1] in ("Add", "AddWithOverflow") and is_index(src[3][2]) \
+                        and src[3][3][0] == "k" and int(src[3][3][3]) == 1:
+                    steps.append(src)
+                else:
+                    other.append(d)
+            elif d[0] == "stmt" and d[3][0] in ("bin", "cbin") and d[3][1] in ("Add", "AddWithOverflow") and is_index(d[3][2]) and d[3][3][0] == "k" and int(d[3][3][3]) == 1:
+                steps.append(d)
+            else:
+                other.append(d)
+        r.instance("consumed-starts-at-zero#%d" % k, inits == [0], "`consumed` must start at 0 (no value has been taken yet); initial values: %s" % inits, c.span)
+        r.instance("consumed-becomes-index-plus-one#%d" % k, bool(steps) and not other,
+                   "after the value of key marker `index` was taken, index + 1 values are consumed; `consumed` is updated by something else (%d other definitions)" % len(other), c.span)
+
+
 def check(ctx):
     facts = inline_view(ctx.facts("default"))
-    for fn in (r1, r2, r3, r4, r5, r6, r7, r8, r9, r10, r11):
+    for fn in (r1, r2, r3, r4, r5, r6, r7, r8, r9, r10, r11, r12):
         try:
             fn(ctx, facts)
         except AnchorLost as ex:
